@@ -142,6 +142,17 @@ def run_case(s):
             return wntr.network.read_json(p)
         finally:
             os.unlink(p)
+    # the caller's dictionary is an input, not scratch space: the same object must serve a second call (create, then append)
+    d_in = copy.deepcopy(jd)
+    try:
+        wntr.network.from_dict(d_in)
+        r = first_diff(norm(jd, demandless), norm(d_in, demandless))
+        if r:
+            viol.append({"key": "argument-modified:%s" % klass(r[0], n0), "what": "from_dict changed the dictionary it was given: %s was %r and is %r afterwards" % r})
+        else:
+            judge("append-same-dict", lambda: wntr.network.from_dict(d_in, append=wntr.network.WaterNetworkModel()))
+    except Exception:  # noqa - crashes are reported by the from_dict leg above
+        pass
     judge("json", via_json)
     judge("append", lambda: wntr.network.from_dict(copy.deepcopy(jd), append=wntr.network.WaterNetworkModel()))
     if wn2 is not None and not viol:
